@@ -117,7 +117,7 @@ pub fn generate(rng: &mut Rng, thorough: bool) -> (C11Scenario, String) {
     } else if huge {
         rng.range(258, 300) // beyond the 256-entry thresholds
     } else if thorough && rng.pct(25) {
-        rng.range(65, 90) // beyond the 64-entry thresholds
+        rng.range(65, 110) // beyond the 64-entry and 100-entry thresholds
     } else if thorough {
         rng.range(17, 40)
     } else {
